@@ -174,7 +174,7 @@ pub fn run(ctx: &Ctx) -> Report {
     quotas.push(("steps_where_load_matching_lowers_self_use".into(), tally.get("steps_where_load_matching_lowers_self_use"), 300));
     Report {
         tally,
-        rule: "generated buildings with on-site and / or cogenerated electricity in which each of the five per-step regimes (PV >= use, PV < use <= PV + CHP, use > PV + CHP, zero production, zero use) is planted, evaluated without and with load matching; per step: sources as declared, f_match formula and range, allocation on-site first then cogeneration, bounds, and load matching never raising self-use nor lowering grid delivery; non-trivial = some step has both on-site and cogenerated production; distinct = distinct (components text, factors, k_exp, area)".into(),
+        rule: "generated buildings with on-site and / or cogenerated electricity in which each of the five per-step regimes (PV >= use, PV < use <= PV + CHP, use > PV + CHP, zero production, zero use) is planted, evaluated without and with load matching; per step: sources as declared, f_match formula and range, allocation on-site first then cogeneration, bounds, and load matching never raising self-use nor lowering grid delivery; non-trivial = some step has both on-site and cogenerated production; distinct = distinct (components text, factors, k_exp, area); six hourly series (8760 / 8784 steps) per quick run".into(),
         assumptions: vec!["rounding slack 3e-6 of max(use, production) per step".into()],
         quotas,
     }
